@@ -406,6 +406,8 @@ def c13_jobs(tier):
     jobs = grid_jobs('mfz-f64', 'harness/mfz.cpp', src, tier, 8)
     jobs += grid_jobs('mfz-f32', 'harness/mfz.cpp', src, tier, 4, defs=['-DA_SIZE_REAL=4'])
     jobs += grid_jobs('mfz-f64-asan', 'harness/mfz.cpp', src, 'quick', 4, san='asan')
+    # long double reals: sizeof(a_real) is no longer 2*sizeof(unsigned int), which the layout of the scratch buffer must not assume
+    jobs += grid_jobs('mfz-ld', 'harness/mfz.cpp', src, 'quick', 2, defs=['-DA_SIZE_REAL=16'])
     return jobs
 
 
